@@ -27,7 +27,7 @@ ASSUMPTIONS = [
     'vf/shims/portion.py (integer interval sets, self-tested) stands in for the portion package',
 ]
 DECIDING = ['bp.app.fragment:Fragment._reassemble', 'bp.agent:Agent.recv_bundle']
-REQUIRED_OBS = ['arrivals', 'deliveries_due', 'deliveries_seen', 'duplicates_injected', 'interleaved_histories', 'overlapping_sets', 'signed_histories', 'burst_histories', 'whole_adu_histories', 'damaged_copies_injected']
+REQUIRED_OBS = ['arrivals', 'deliveries_due', 'deliveries_seen', 'duplicates_injected', 'interleaved_histories', 'overlapping_sets', 'signed_histories', 'burst_histories', 'whole_adu_histories', 'damaged_copies_injected', 'replayed_histories']
 
 NODE = 'dtn://me/'
 DEST = 'dtn://me/app'
@@ -225,13 +225,23 @@ def run_history(arrivals, originals, obs, verifying=None):
 def _bundle_set(rng, nbundles, one_component=True):
     ''' Identities that differ in exactly one component. '''
     base = ('dtn://src/a', 820540000000 + rng.randrange(1000), rng.randrange(5))
+    style = rng.random()
+    if style < 0.2:
+        # a source without a clock: creation time 0 (its bundles are told apart by the sequence number alone)
+        base = (base[0], 0, base[2])
+    elif style < 0.4:
+        # three-element ipn node ids (allocator, node, service) that differ in the node number only; also without a clock
+        base = ('ipn:0.5.1', rng.choice([0, base[1]]), base[2])
     keys = [base]
     comps = ['src', 'time', 'seq']
     rng.shuffle(comps)
     for idx in range(nbundles - 1):
         comp = comps[idx % 3]
         if comp == 'src':
-            keys.append(('dtn://src/b' if idx == 0 else 'ipn:4.%d' % idx, base[1], base[2]))
+            if base[0].startswith('ipn:'):
+                keys.append(('ipn:0.%d.1' % (6 + idx), base[1], base[2]))
+            else:
+                keys.append(('dtn://src/b' if idx == 0 else 'ipn:4.%d' % idx, base[1], base[2]))
         elif comp == 'time':
             keys.append((base[0], base[1] + idx + 1, base[2]))
         else:
@@ -410,6 +420,12 @@ def run_case(case):
             rng.shuffle(arrivals)
             obs['interleaved_histories'] += 1
             play(arrivals, originals, 'interleaved')
+            # every fragment arrives a second time after the bundles were reassembled (a retransmitting neighbour): no second delivery
+            again = list(arrivals)
+            rng.shuffle(again)
+            obs['replayed_histories'] = obs.get('replayed_histories', 0) + 1
+            obs['duplicates_injected'] += len(again)
+            play(arrivals + again, originals, 'interleaved-then-replayed')
             # the same fragments, several per loop turn (the completing fragments of two bundles can arrive in one burst)
             group = rng.choice([2, 3, len(arrivals)])
             for item in run_history_bursts(arrivals, originals, obs, group):
